@@ -17,6 +17,10 @@ THEOREMS = {"glob_iff": "full: match_glob = wildcard semantics for every pattern
             "extract_selected": "full for parent-closed selections: wildcard arguments select exactly the matching members (tree of the selected entries)",
             "extract_relocated": "full: w=DIR (clean relative DIR, nothing below its place): tree below cwd/DIR, DIR created 0755-umask",
             "extract_flattened": "full: option i with pairwise distinct names: every selected file/link directly in the extraction directory",
+            "overwrite_policy": "full: pre-existing top-level files; an archived file replaces an existing one exactly when the independent policy "
+                                "specification (f / q / prompt answers y n a s, junk, end of input = abort) says so; everything else untouched",
+            "prompt_follows_spec": "full", "overwrite_outcome_spelled": "definition unfolding",
+            "print_writes_selected": "full, on bytes, every option set: lha p = for each selected entry banner + EXACTLY the file's data",
             "extract_reproduces_tree_packed": "full: the same for any member packer with a decoder round trip (stored L1/L2, -lzs-, -lz5- instantiated)",
             "archive_denotes_tree": "full: the Denotes hypothesis of run_tree_partial is a theorem for such archives",
             "sample_tree_with_files_extracts": "non-vacuity incl. files and read-only directories",
@@ -598,7 +602,8 @@ def run_case(ctx, env, c):
     mop = "xrun2 %s %s %d %s %s %s %s %s" % (d["cmd"], optstr, 1 if d["as_root"] else 0, hx(res["abs_prefix"]), hx(d["answers"]),
                                            pre_m, fl, arch.hex())
     top = tree_op(d, arch, res["abs_prefix"]) if in_theorem_domain(d) else \
-        (tree2_op(d, arch, res["abs_prefix"]) if option_theorem_kind(d) else None)
+        (tree2_op(d, arch, res["abs_prefix"]) if option_theorem_kind(d) else
+         (tree3_op(d, arch, res["abs_prefix"]) if overwrite_theorem_case(d) else None))
     return {"why": why, "c_out": c_out, "rc": res["rc"], "listing": res["listing"], "stdout": res["stdout"], "model_op": mop,
             "stderr": res["stderr"][:200], "cmd": d["cmd"], "tree_op": top}
 
@@ -638,6 +643,17 @@ def option_theorem_kind(d):
     if flat and not w:
         return "flat"
     return None
+
+
+def overwrite_theorem_case(d):
+    """plain `lha x` with pre-existing files: the domain of Props.C06.overwrite_policy"""
+    return d["cmd"] == "x" and d["pre"] and not d["filters"] and all(o in THEOREM_OPTS for o in d["opts"])
+
+
+def tree3_op(d, arch, abs_prefix):
+    pre_m = ",".join("f:%s:%s" % (hx(p), hx(data)) for p, data in d["pre"]) or "-"
+    return "xtree3 %s %d %s %s %s %s %s" % (",".join(d["opts"]) or "-", 1 if d["as_root"] else 0, hx(abs_prefix), hx(d["answers"]), pre_m,
+                                            ",".join(entry_desc(e) for e in d["ents"]) or "-", arch.hex())
 
 
 def tree2_op(d, arch, abs_prefix):
@@ -704,7 +720,7 @@ def evaluate(ctx, env, cases, with_model):
             if t.startswith("kind="):
                 # an option theorem (extract_selected / extract_relocated / extract_flattened): when its decidable hypotheses hold
                 # for this generated case, the tree it promises must be the real tool's tree
-                m2 = re.match(r"kind=(\w+) hyp=([01]) tree=(\S*)$", t)
+                m2 = re.match(r"kind=(\w+) hyp=([01]) (?:abort=[01] )?tree=(\S*)$", t)
                 if m2 is None:
                     corr.append(dict(rec, why="TIE: hypothesis driver output not understood: " + t[:200]))
                     continue
@@ -713,7 +729,9 @@ def evaluate(ctx, env, cases, with_model):
                 if m2.group(2) == "1":
                     ctx.dist["option-theorem-%s-hyp-holds" % kind] += 1
                     real = sorted(x for x in r["listing"].split(";") if x.startswith("/726f6f74/"))
-                    if sorted(x for x in m2.group(3).split(";") if x) != real or r["rc"] != 0:
+                    mab = re.search(r" abort=([01]) ", t)
+                    rc_ok = (r["rc"] == 0) if mab is None else ((r["rc"] != 0) == (mab.group(1) == "1"))
+                    if sorted(x for x in m2.group(3).split(";") if x) != real or not rc_ok:
                         corr.append(dict(rec, why="TIE: the tree promised by the option theorem of Props.C06 (%s) differs from the tree the real "
                                          "tool produced" % kind, tree_out=t[:3000]))
                     else:
